@@ -87,6 +87,7 @@ type Interp struct {
 	elemOrigin map[*Value][]Value
 	funcsSeen  map[*ssa.Function]bool
 	tolerant   int
+	needsInit  map[*ssa.Package]map[*ssa.Global]bool
 	parked     []parkedGo
 	inGoroutine int
 	selectRetry bool
@@ -241,6 +242,7 @@ func (fr *frame) get(v ssa.Value) Value {
 	case *ssa.Const:
 		return fr.in.constValue(v)
 	case *ssa.Global:
+		fr.in.checkGlobalUse(v)
 		return fr.in.globalAddr(v)
 	case *ssa.Function:
 		return v
@@ -309,6 +311,90 @@ func (in *Interp) ensureInit(pkg *ssa.Package) {
 		}
 	}
 	in.patchGlobals(pkg)
+	if !in.ex.runInit(path) {
+		in.sentinelErrors(pkg)
+	}
+}
+
+// checkGlobalUse fails closed when code touches a global that its package
+// initialiser would have set up, but that initialiser is not run.
+func (in *Interp) checkGlobalUse(g *ssa.Global) {
+	if g.Pkg == nil || in.tolerant > 0 {
+		return
+	}
+	path := g.Pkg.Pkg.Path()
+	if in.ex.runInit(path) {
+		return
+	}
+	ni, ok := in.needsInit[g.Pkg]
+	if !ok {
+		ni = map[*ssa.Global]bool{}
+		if initFn := g.Pkg.Func("init"); initFn != nil {
+			for _, b := range initFn.Blocks {
+				for _, ins := range b.Instrs {
+					st, ok := ins.(*ssa.Store)
+					if !ok {
+						continue
+					}
+					addr := st.Addr
+					for {
+						switch a := addr.(type) {
+						case *ssa.FieldAddr:
+							addr = a.X
+							continue
+						case *ssa.IndexAddr:
+							addr = a.X
+							continue
+						}
+						break
+					}
+					if gg, ok := addr.(*ssa.Global); ok {
+						ni[gg] = true
+					}
+				}
+			}
+		}
+		if in.needsInit == nil {
+			in.needsInit = map[*ssa.Package]map[*ssa.Global]bool{}
+		}
+		in.needsInit[g.Pkg] = ni
+	}
+	in.ensureInit(g.Pkg)
+	if ni[g] && !in.patched[g] {
+		panic(in.unsupported("use of global " + g.String() + " whose package initialiser is not modelled (add the package to the initialiser allow-list or patch it)"))
+	}
+}
+
+// sentinelErrors gives every still-nil `error` variable of a package whose
+// initialiser is not run a distinct sentinel value (identity is what callers
+// compare; the message is the variable's name).
+func (in *Interp) sentinelErrors(pkg *ssa.Package) {
+	rtp := in.prog.ImportedPackage(RT)
+	if rtp == nil {
+		return
+	}
+	tn, ok := rtp.Members["errorString"].(*ssa.Type)
+	if !ok {
+		return
+	}
+	errT := types.Universe.Lookup("error").Type()
+	for name, m := range pkg.Members {
+		g, ok := m.(*ssa.Global)
+		if !ok || in.patched[g] {
+			continue
+		}
+		if !types.Identical(g.Type().(*types.Pointer).Elem(), errT) {
+			continue
+		}
+		cell := in.globals[g]
+		if cur, ok := (*cell).(Iface); ok && cur.T != nil {
+			continue
+		}
+		obj := new(Value)
+		*obj = Struct{pkg.Pkg.Path() + "." + name}
+		*cell = Iface{T: types.NewPointer(tn.Type()), V: obj}
+		in.patched[g] = true
+	}
 }
 
 // ---- calls ----
